@@ -85,9 +85,23 @@ package gtab
 //@ func (ctx *Context) applyAtRecursively(pos int) (next int)   props: C07
 //@   requires ctx != nil && 0 <= pos && pos < len(ctx.seq) && len(ctx.stack) == 0 && keepOK(ctx) && llOK(ctx)
 //@   requires ctx.lookup != nil && forall j int :: 0 <= j && j < len(ctx.lookup.Subtables) ==> ctx.lookup.Subtables[j] != nil
-//@   ensures len(ctx.stack) == 0
+//@   ensures len(ctx.stack) == 0 && next >= 0
 //@   ensures keepOK(ctx) && llOK(ctx) && ctx.lookup == old(ctx.lookup) && ctx.keep == old(ctx.keep) && ctx.ll == old(ctx.ll)
 //@   modifies ctx.seq, ctx.stack, ctx.scratch, ctx.lookup, ctx.keep, all(nested), all(glyph.Info), allelems(int), allelems(*nested), allelems(rune), allelems(SeqLookup)
 //@   loop 0
 //@     invariant stackinv(ctx) && keepOK(ctx) && llOK(ctx) && 1 <= numActions && numActions <= 64 && ctx.lookup == old(ctx.lookup) && ctx.keep == old(ctx.keep) && ctx.ll == old(ctx.ll)
 //@     decreases 64 - numActions, len(ctx.stack)
+
+// Apply: terminates for every behaviour of the subtables (the progress guard),
+// never indexes out of range, and leaves no pending actions behind, so the
+// next call starts from the same state as a fresh context.
+//@ func (ctx *Context) Apply(seq []glyph.Info) (res []glyph.Info)   props: C07
+//@   requires ctx != nil && llOK(ctx) && len(ctx.stack) == 0
+//@   ensures len(ctx.stack) == 0 && llOK(ctx) && ctx.ll == old(ctx.ll) && ctx.lookups == old(ctx.lookups) && ctx.gdef == old(ctx.gdef)
+//@   modifies ctx.seq, ctx.stack, ctx.scratch, ctx.lookup, ctx.keep, all(nested), all(glyph.Info), allelems(int), allelems(*nested), allelems(rune), allelems(SeqLookup)
+//@   loop 0
+//@     invariant llOK(ctx) && len(ctx.stack) == 0 && ctx.ll == old(ctx.ll) && ctx.lookups == old(ctx.lookups) && ctx.gdef == old(ctx.gdef)
+//@   loop 1
+//@     invariant llOK(ctx) && len(ctx.stack) == 0 && ctx.ll == old(ctx.ll) && ctx.lookups == old(ctx.lookups) && ctx.gdef == old(ctx.gdef)
+//@     invariant 0 <= pos && keepOK(ctx) && ctx.lookup == ctx.ll[lookupIndex] && lookupIndex < len(ctx.ll)
+//@     decreases len(ctx.seq) - pos
